@@ -90,6 +90,9 @@ pub fn minimise(orig: &History, property: &str, sig: &str, budget: usize) -> His
                     cands.push(Op::Reorg { depth: *depth, branch: vec![] });
                 }
             }
+            Op::Precious { txs } if !txs.is_empty() => {
+                cands.push(Op::Precious { txs: vec![] });
+            }
             Op::Mine { txs } if txs.len() > 1 => {
                 for k in 0..txs.len() {
                     let mut t = txs.clone();
